@@ -336,6 +336,10 @@ func runC11(p *core.Program, r *core.Report) {
 
 	// ---------- R11.5 token values are pieces of the password string itself
 	checkDecodedValuesArePieces(p, r, dec)
+	// … consecutive pieces whose lengths are the index bytes (= C12 R12.2b re-run)
+	if len(dec.Params) == 3 {
+		r.Borrow("R11.5", func() { checkConsecutiveSlices(p, r, dec, dec.Params[1]) })
+	}
 	// ---------- R11.2 the classification looks at every token
 	checkKindHelpers(p, r, kindFn)
 
